@@ -106,6 +106,10 @@ Proof. vm_compute. reflexivity. Qed.
 (* 40^9 = 0xEE6B28000000: nine zero digits, printed as nine 'x', terminated *)
 Example c17_ex_40_pow_9 : decode_callsign [0xEE; 0x6B; 0x28; 0; 0; 0] = Some (pad10 (repeat 120 9)).
 Proof. vm_compute. reflexivity. Qed.
+(* the digit loop WITHOUT the bound of fix 766f992 writes "xxxxxxxxxA" - ten characters, no NUL - for the same address (defect F3, fixed) *)
+Example c17_ex_unbounded_loop_unterminated :
+  decode_callsign_with None [0xEE; 0x6B; 0x28; 0; 0; 0] = Some (repeat 120 9 ++ [65]).
+Proof. exact unbounded_loop_unterminated. Qed.
 (* "A B" (space unmapped): encodes as 1 + 0*40 + 2*1600 and decodes as "AxB" *)
 Example c17_ex_space : decode_callsign (encode_callsign (pad10 [65; 32; 66])) = Some (pad10 [65; 120; 66]).
 Proof. vm_compute. reflexivity. Qed.
